@@ -24,10 +24,11 @@ type vxC16Case struct {
 	Parallel bool  `json:"parallel"`
 	Delays   []int `json:"delaysMs"` // start delay of fan i relative to the previous start (-1 = when the previous fan finished its analysis)
 	Settle   []int `json:"settle"`   // per fan: 0 steady at once, 1 settles after 15 s, 2 after 40 s
+	Kinds    []int `json:"kinds"`    // per fan: 0 nothing stored, 1 nothing stored + pwmMap configured (no sweep, measurement only), 2 only the RPM curve stored (sweep only)
 }
 
 func (c vxC16Case) String() string {
-	return fmt.Sprintf("parallel=%v delaysMs=%v settle=%v", c.Parallel, c.Delays, c.Settle)
+	return fmt.Sprintf("parallel=%v delaysMs=%v settle=%v kinds=%v", c.Parallel, c.Delays, c.Settle, c.Kinds)
 }
 
 type vxIv struct {
@@ -54,6 +55,14 @@ func vxC16Exec(t *testing.T, c vxC16Case) (ivs []vxIv, fail [2]string) {
 		}
 		for i := 0; i < k; i++ {
 			cfg := vxRunCfg{Kind: "hwmon", OrigMode: 2, OrigPwm: 120, Scenario: "signal"}
+			if i < len(c.Kinds) {
+				switch c.Kinds[i] {
+				case 1:
+					cfg.ConfMap = true
+				case 2:
+					cfg.Stored, cfg.CurveOnly = true, true
+				}
+			}
 			w := vxRunBuild(cfg, fmt.Sprintf("fan%d", i), fs, fmt.Sprintf("hwmon%d", i), db, false)
 			worlds[i] = w
 			i := i
@@ -166,6 +175,15 @@ func vxC16Exec(t *testing.T, c vxC16Case) (ivs []vxIv, fail [2]string) {
 	return
 }
 
+func allSteady(s []int) bool {
+	for _, x := range s {
+		if x != 0 {
+			return false
+		}
+	}
+	return true
+}
+
 func vxOverlap(ivs []vxIv) (int, int, bool) {
 	s := append([]vxIv{}, ivs...)
 	sort.Slice(s, func(i, j int) bool { return s[i].Start < s[j].Start })
@@ -244,6 +262,28 @@ func TestVX_C16(t *testing.T) {
 			return
 		}
 		cases = append(cases, vxC16Case{Parallel: false, Delays: delays, Settle: settle})
+		// the same schedule with mixed fan kinds: a configured pwmMap (measurement without sweep) and a fan whose RPM curve is
+		// stored but whose PWM map is not (sweep without measurement); every assignment for 2 fans, rotations of (1,2,0) beyond
+		if allSteady(settle) || mc.Thorough() {
+			n := len(settle)
+			if n == 2 {
+				for a := 0; a < 3; a++ {
+					for b := 0; b < 3; b++ {
+						if a+b > 0 {
+							cases = append(cases, vxC16Case{Parallel: false, Delays: delays, Settle: settle, Kinds: []int{a, b}})
+						}
+					}
+				}
+			} else {
+				for r := 0; r < 3; r++ {
+					kinds := make([]int, n)
+					for i := range kinds {
+						kinds[i] = []int{1, 2, 0}[(i+r)%3]
+					}
+					cases = append(cases, vxC16Case{Parallel: false, Delays: delays, Settle: settle, Kinds: kinds})
+				}
+			}
+		}
 	}
 	gen(2, nil, nil, 3)
 	if mc.Thorough() {
